@@ -19,7 +19,8 @@ RULE = (
     "pickle that only *its* protection objects to (check: a SUSPICIOUS call of the allow-listed "
     "collections.OrderedDict; ml: a bare reference to datetime.date, which the check rates "
     "LIKELY_SAFE), so that one protection standing in for the other is seen; __exit__ must not "
-    "swallow exceptions. Non-trivial = history nests a context inside another protection, leaves "
+    "swallow exceptions. Any lifecycle operation may run on a worker thread that is joined at once (a block "
+    "entered on one thread and left on another): the history stays one sequence. Non-trivial = history nests a context inside another protection, leaves "
     "by exception, or arms two families; distinct = distinct histories."
     ' Also: a pickle calling each addable name the current activation did not add must be refused'
     ' through every ML-protected binding; under a check armed on top of an active ML environment'
@@ -150,18 +151,46 @@ def step(model, ctxs, st, spare=None):
     import fickling.hook as hook
 
     kind = st[0]
+    threaded = kind.endswith("@t")
+    if threaded:
+        kind = kind[:-2]
+
+    def call(fn, *a, **k):
+        """the library call of this step, on this thread or (steps marked @t) on a worker thread
+        that is joined before anything else happens: the history stays one sequence, only the
+        thread an operation runs on differs (a block entered in a set-up thread and left by the
+        main one, executor glue)"""
+        if not threaded:
+            return fn(*a, **k)
+        import threading
+
+        box = {}
+
+        def run():
+            try:
+                box["r"] = fn(*a, **k)
+            except BaseException as e:  # noqa: BLE001
+                box["e"] = e
+
+        t = threading.Thread(target=run)
+        t.start()
+        t.join()
+        if "e" in box:
+            raise box["e"]
+        return box.get("r")
+
     if kind == "arm":
-        fickling.always_check_safety()
+        call(fickling.always_check_safety)
         model.arm()
     elif kind == "activate":
-        hook.activate_safe_ml_environment(also_allow=list(st[1]) or None)
+        call(hook.activate_safe_ml_environment, also_allow=list(st[1]) or None)
         model.activate(st[1])
     elif kind == "remove":
-        hook.remove_hook()
+        call(hook.remove_hook)
         model.remove()
     elif kind == "enter":
         c = fickling.check_safety()
-        c.__enter__()
+        call(c.__enter__)
         ctxs.append(c)
         model.enter()
     elif kind == "create":
@@ -170,26 +199,26 @@ def step(model, ctxs, st, spare=None):
     elif kind == "enter_spare":
         if spare:
             c = spare.pop(0)
-            c.__enter__()
+            call(c.__enter__)
             ctxs.append(c)
             model.enter()
     elif kind == "reenter":
         # the manager of the innermost open block is entered again (and left again later)
         if ctxs:
             c = ctxs[-1]
-            c.__enter__()
+            call(c.__enter__)
             ctxs.append(c)
             model.enter()
     elif kind == "leave":
         c = ctxs.pop()
-        r = c.__exit__(None, None, None)
+        r = call(c.__exit__, None, None, None)
         model.leave()
         if r:
             return "__exit__ returned a true value on a normal exit"
     elif kind == "leave_exc":
         c = ctxs.pop()
         e = Boom("x")
-        r = c.__exit__(Boom, e, None)
+        r = call(c.__exit__, Boom, e, None)
         model.leave()
         if r:
             return "__exit__ swallowed the exception (returned a true value)"
@@ -289,8 +318,13 @@ def _machine(res, holder):
             self.spare = []
             self.history = []
             self.feat = set()
+            self.next_threaded = False
 
         def _do(self, stp):
+            if self.next_threaded and stp[0] not in ("probe", "create"):
+                stp = (stp[0] + "@t",) + tuple(stp[1:])
+                self.next_threaded = False
+                self.feat.add("other-thread")
             self.history.append(stp)
             msg = step(self.model, self.ctxs, stp, self.spare)
             if msg:
@@ -353,6 +387,12 @@ def _machine(res, holder):
         def leave_exc(self):
             self.feat.add("leave-by-exception")
             self._do(("leave_exc",))
+
+        @precondition(lambda self: not self.next_threaded)
+        @rule()
+        def hand_over(self):
+            # the next lifecycle operation runs on a worker thread (joined at once)
+            self.next_threaded = True
 
         @rule(n=st.sampled_from(BINDINGS))
         def probe_(self, n):
